@@ -33,7 +33,7 @@ fn no_panic<T: Dom>(outer: VK, inner: Option<VK>, k: usize, shape: Shape, last_p
     let positive = outer.needs_positive() || inner.as_ref().map_or(false, |i| i.needs_positive());
     // a constructor that rejects the window length (assert!) is not a violation: C15 is about the lengths it accepts
     let built = std::panic::catch_unwind(std::panic::AssertUnwindSafe(|| { let base = match &inner { Some(i) => build::<T>(i, echo()), None => echo() }; build::<T>(&outer, base) }));
-    let Ok(mut v) = built else { T::note(format!("{}: constructor rejects this window length", outer.name())); return };
+    let Ok(mut v) = built else { T::oblige(&format!("{}: the constructor rejects this window length (nothing to run)", outer.name()), Cond::Bool(true)); return };
     let xs = stream::<T>(shape, k, positive);
     let _ = v.last();
     for (t, x) in xs.iter().enumerate() {
